@@ -35,25 +35,22 @@ def rep_havoc(s, timer):
                 s.dont_care(dc, k)
 
 
-# ---- abstract timer actions (the single source used by every other spec)
+# ---- abstract timer actions (the single source used by every other spec).  They do not fork: the new
+#      abstract state is an if-then-else of the old one, so callers' path counts stay small.
 def t_cancel(s, t):
-    if s.branch(to_bool_term(s.get(t, '_active'))):
-        s.set(t, '_active', False)
-        s.set(t, 'status', False)
-        s.eff('TimerCancel', t)
+    a = to_bool_term(s.get(t, '_active'))
+    st = to_bool_term(s.get(t, 'status'))
+    s.set(t, 'status', mk_bool(z3.And(st, z3.Not(a))))      # status := False only if the cancel took effect
+    s.set(t, '_active', False)
 
 
 def t_reset(s, t, secs):
-    if not s.branch(to_bool_term(s.get(t, '_active'))):
-        # starts a fresh DelayedCall: Twisted's callLater asserts delay >= 0
-        neg = s.it.m.compare(s.it, 'Lt', secs, 0)
-        if s.c.truth(neg):
-            s.set(t, 'status', True)
-            raise SimExc('AssertionError')
+    # an inactive timer is started with reactor.callLater, which asserts delay >= 0 (Twisted)
+    neg = s.it.m.compare(s.it, 'Lt', secs, 0)
+    s.c.requires(z3.Not(to_bool_term(neg)), 'timer delay is not negative')
     s.set(t, 'status', True)
     s.set(t, '_active', True)
     s.set(t, '_deadline', s.add(now(s), secs))
-    s.eff('TimerSet', t, secs)
 
 
 def t_active(s, t):
@@ -122,7 +119,8 @@ def build_concrete(it, nargs):
     p.assume(z3.Implies(to_bool_term(t.f['_active']), status.t))
     args = [t]
     if nargs:
-        args.append(SNum(z3.Real('secs')))
+        secs = SNum(z3.Real('secs'))
+        args.append(secs)
     return [t], args, {}
 
 
@@ -137,18 +135,8 @@ def abstract(t):
 
 
 def translate_effects(it, t, eff0):
-    """concrete DelayedCall effects -> abstract timer effects"""
-    out = []
-    for e in it.p.effects[eff0:]:
-        if e[0] == 'DCCancel':
-            out.append(('TimerCancel', t))
-        elif e[0] == 'DCReset':
-            out.append(('TimerSet', t, e[2]))
-        elif e[0] == 'CallLater':
-            out.append(('TimerSet', t, e[2]))
-        else:
-            out.append(e)
-    it.p.effects[eff0:] = out
+    """the DelayedCall operations are the representation of the abstract timer state: not effects of their own"""
+    it.p.effects[eff0:] = [e for e in it.p.effects[eff0:] if e[0] not in ('DCCancel', 'DCReset', 'CallLater')]
 
 
 def _abs(it, roots, eff0):
